@@ -66,7 +66,7 @@ types.append(record("Leaf", [field("v", prim("string")), field("w", prim("int32"
 types.append(record("Mid", [field("ml", mp(ref("Leaf"))), field("t", prim("string"))]))
 types.append(record("Deep", [field("am", arr(ref("Mid"))), field("top", prim("string")), field("ol", ref("Leaf"), True)]))
 # include chains: two siblings including the same record (which itself includes one)
-types.append(record("Base2", [field("b1", prim("string")), field("b2", prim("string"))]))
+types.append(record("Base2", [field("b1", prim("string")), field("b2", prim("string")), field("b3", prim("string"), True)]))
 types.append(record("Mid2", [field("m1", prim("string"))], includes=["Base2"]))
 types.append(record("Alpha", [field("a1", prim("string"))], includes=["Mid2"]))
 types.append(record("Beta", [field("p1", prim("string")), field("p2", prim("string"), True)], includes=["Mid2"]))
